@@ -203,6 +203,33 @@ def run(ctx):
             if len(ctx.samples) < 3 and c["op"] != "update_variance":
                 ctx.samples.append({"op": c["op"], "inputs": {k: c.get(k) for k in ("x", "y", "z", "w", "a", "fill")}, "element": i, "result": impl})
     ctx.oblig("correspondence-estimator-kernels", ndiff == 0, "%d elements differ" % ndiff)
+    # (1b) the log-determinant of a diagonal transformation is the sum of the logarithms of its
+    # scales: finite for every vector of scales within the clamp range, whatever the dimension
+    r = ctx.rnd()
+    lcs = []
+    for cid in range(120 if quick else 1200):
+        n = r.choice([1, 2, 5, 10, 31, 40, 50, 64, 100, 130])
+        mag = r.choice([1.0, 1e-3, 1e3, 1e-9, 1e8, 1e-10, 1e10])
+        xs = [mag * math.exp(r.uniform(-1, 1)) if r.random() < 0.8 else math.exp(r.uniform(-20, 20)) for _ in range(n)]
+        xs = [min(max(x, 1e-10), 1e10) for x in xs]
+        lcs.append({"id": cid, "op": "sum_ln", "n": n, "x": [str(f2b(x)) for x in xs]})
+    louts, lerrs_ = run_harness_parallel("kernels", lcs)
+    ctx.oblig("harness-run-sum-ln", not lerrs_ and len(louts) == len(lcs), "\n".join(lerrs_)[:1500])
+    nld = 0
+    for c in lcs:
+        o = louts.get(c["id"])
+        if not o or "panic" in o:
+            continue
+        ctx.evaluations += 1
+        want = math.fsum(math.log(b2f(x)) for x in c["x"])
+        got = b2f(o["s"][0])
+        if not (abs(got - want) <= 1e-9 * (1 + abs(want))):
+            nld += 1
+            nbad += 1
+            if nld <= 3:
+                violation(ctx, "implementation violates C08: the sum of logarithms of %d scales of magnitude %.3g (the log-determinant of a diagonal transformation) is reported as %r, it is %r" % (
+                    c["n"], b2f(c["x"][0]), got, want), {"case": c}, found_input=True)
+    ctx.oblig("impl-audit-logdet-sum", nld == 0, "%d cases" % nld)
     # (2) closed loop on Gaussian targets
     lc = gen_loop_cases(ctx, 40 if quick else 300)
     louts, lerrs = run_harness_parallel("schedule", lc)
